@@ -203,9 +203,10 @@ pub fn matrix_case(i: usize, seed: u64, sp: &Space) -> Config {
         raw_rate: false,
         // a quarter of the cases run on a generator that already produced another pickle
         warmup: if rng.below(4) == 0 { Some(rng.next() >> 8) } else { None },
-        // builder-call order (0..2) / Generator::default() construction (3, 4); bit 16 = mutator
+        // builder-call order (0..2) / Generator::default() construction (3, 4) / built for another
+        // protocol and retargeted through state.version (5, 6); bit 16 = mutator
         // objects created with the opposite unsafe flag
-        order: rng.below(5) as u8 | if rng.below(100) < sp.flip_share { 16 } else { 0 },
+        order: rng.below(7) as u8 | if rng.below(100) < sp.flip_share { 16 } else { 0 },
         bufsize: match rng.below(12) {
             0 => Some(256),
             1 => Some(1024),
